@@ -622,9 +622,32 @@ def st_z2x2(draw, delta_range=(0.03, 0.12), spread=0.12):
     return {"family": "Z2x2", "p": p, "delta": delta}
 
 
+def alpha_n_closed(spec):
+    """Transition strength alpha_n = [De - Dp/cs_low^2]/(3 w_high) at Tn from the closed forms
+    (second derivatives of p by central differences of the closed-form dp; used to classify and
+    to construct points of a wanted strength, never as an oracle)."""
+    cf = closed(spec)
+    Tn = nucleation_temperature(spec)
+    h = 1e-4 * Tn
+
+    def dp(which, T):
+        return -float(cf.dVdT(cf.phase(which, T), T))
+
+    def p(which, T):
+        return -float(cf.V(cf.phase(which, T), T))
+
+    ddp_low = (dp("low", Tn + h) - dp("low", Tn - h)) / (2 * h)
+    cs2_low = dp("low", Tn) / (Tn * ddp_low)
+    e_h = Tn * dp("high", Tn) - p("high", Tn)
+    e_l = Tn * dp("low", Tn) - p("low", Tn)
+    return (e_h - e_l - (p("high", Tn) - p("low", Tn)) / cs2_low) / (3 * Tn * dp("high", Tn))
+
+
 @st.composite
-def st_cubic1(draw, delta_range=(0.02, 0.9)):
-    """Cubic1: Tn = Tc - x (Tc - T0) with x in delta_range (so both phases exist at Tn by construction)."""
+def st_cubic1(draw, delta_range=(0.02, 0.9), min_alpha=None):
+    """Cubic1: Tn = Tc - x (Tc - T0) with x in delta_range (so both phases exist at Tn by construction).
+    With min_alpha the number of light degrees of freedom `a` is lowered (alpha_n ~ 1/a) until
+    alpha_n >= min_alpha, by construction."""
     g = round(draw(st.floats(0.1, 0.6)), 4)
     lam = round(draw(st.floats(0.05, 0.3)), 4)
     # A^2 < 4 lam g * f  with f < 1 keeps T1 finite; stronger transitions for larger A
@@ -637,7 +660,14 @@ def st_cubic1(draw, delta_range=(0.02, 0.9)):
     Tn = cf.Tc - x * (cf.Tc - cf.T0)
     delta = round(1 - Tn / cf.Tc, 6)
     delta = min(max(delta, 1e-4), (1 - cf.T0 / cf.Tc) * 0.98)
-    return {"family": "Cubic1", "p": p, "delta": delta}
+    spec = {"family": "Cubic1", "p": p, "delta": delta}
+    if min_alpha is not None:
+        for _ in range(4):
+            al = alpha_n_closed(spec)
+            if al >= min_alpha:
+                break
+            p["a"] = round(p["a"] * al / (1.3 * min_alpha), 6)
+    return spec
 
 
 @st.composite
